@@ -16,7 +16,7 @@ package ws
 //@
 //@ struct listener
 //@   nullable: bound
-//@   method_invariant anon ==> bound != nil
+//@   invariant anon ==> bound != nil
 //@   lock lock level 50
 //@   guarded_by lock: pending running closed opts ug listener bound anon noserve htsvr
 //@   cond cv uses lock
